@@ -254,3 +254,57 @@ void verif_trace_setup(const char *path, uint64_t mask, unsigned watchdog_s)
 		pthread_detach(t);
 	}
 }
+
+/* ---- arena address order (VERIF_ARENA_ORDER=desc | rand,<seed>): mm/buddy/multi.c is compiled with malloc/free renamed to these two.  Requests
+   of exactly one arena (struct buddy_state) are served from a pool of equal slots in the requested address order, so that arenas created
+   later can lie BELOW older ones (the library keeps its arenas sorted by address); everything else goes to the real allocator. ---- */
+#include <mm/buddy/buddy.h>
+#define ARENA_SLOTS 96
+static unsigned char *arena_pool;
+static unsigned char arena_used[ARENA_SLOTS];
+static size_t arena_slot;
+static int arena_mode = -1;
+static uint64_t arena_rng;
+static pthread_mutex_t arena_lock = PTHREAD_MUTEX_INITIALIZER;
+void *verif_arena_malloc(size_t n)
+{
+	if(arena_mode < 0) {
+		const char *e = getenv("VERIF_ARENA_ORDER");
+		arena_mode = !e ? 0 : (e[0] == 'd' ? 1 : 2);
+		arena_rng = (e && strchr(e, ',')) ? strtoull(strchr(e, ',') + 1, NULL, 0) | 1 : 0x9E3779B97F4A7C15ULL;
+	}
+	if(!arena_mode || n != sizeof(struct buddy_state))
+		return malloc(n);
+	pthread_mutex_lock(&arena_lock);
+	if(!arena_pool) {
+		arena_slot = (sizeof(struct buddy_state) + 4095) & ~(size_t)4095;
+		arena_pool = aligned_alloc(4096, arena_slot * ARENA_SLOTS);
+	}
+	int pick = -1;
+	if(arena_mode == 1) {
+		for(int i = ARENA_SLOTS - 1; i >= 0 && pick < 0; --i)
+			if(!arena_used[i]) pick = i;
+	} else {
+		arena_rng ^= arena_rng << 13; arena_rng ^= arena_rng >> 7; arena_rng ^= arena_rng << 17;
+		for(int k = 0; k < ARENA_SLOTS && pick < 0; ++k)
+			if(!arena_used[(arena_rng + k) % ARENA_SLOTS]) pick = (int)((arena_rng + k) % ARENA_SLOTS);
+	}
+	void *ret = NULL;
+	if(pick >= 0 && arena_pool) {
+		arena_used[pick] = 1;
+		ret = arena_pool + (size_t)pick * arena_slot;
+	}
+	pthread_mutex_unlock(&arena_lock);
+	return ret ? ret : malloc(n);
+}
+
+void verif_arena_free(void *p)
+{
+	if(arena_pool && (unsigned char *)p >= arena_pool && (unsigned char *)p < arena_pool + arena_slot * ARENA_SLOTS) {
+		pthread_mutex_lock(&arena_lock);
+		arena_used[((unsigned char *)p - arena_pool) / arena_slot] = 0;
+		pthread_mutex_unlock(&arena_lock);
+		return;
+	}
+	free(p);
+}
